@@ -1,5 +1,5 @@
 """C18 — distance-vector routing converges to shortest paths on every connected topology and every fair schedule.
-Proof: coq/Dv (Props_C18.v).  Translator: translators/dv regenerates coq/Dv/GenConsts.v (CostInfinity, localCost).
+Proof: coq/Dv (Props_C18.v).  Translator: translators/dv/gen_consts.py regenerates coq/Dv/GenConsts.v (CostInfinity from the compiler via the hook; per-hop cost measured on one real ribUpdate).
 Correspondence: harness/dv drives a network of real dv.Router objects (real table.Rib, real ribUpdate and
 checkDeadNeighbors through verif wrappers, fake ndn.Engine) with generated fair schedules and fault sequences;
 runner/Dv replays every event on the extracted model and compares the whole RIB (per-hop costs, best and second
@@ -11,15 +11,18 @@ import os, hashlib, re
 import vlib
 
 
-def translate(R):
-    out = os.path.join(vlib.COQ, "Dv", "GenConsts.v")
-    src = os.path.join(vlib.VERIF, "translators", "dv", "main.go")
-    rc, log = vlib.sh([vlib.GO, "run", src, vlib.REPO, out], env=vlib.goenv(), timeout=300, cwd=vlib.VERIF)
-    R.log("translator: " + log.strip()[-200:])
-    if rc != 0:
-        R.proof_problems.append("translators/dv could not read CostInfinity/localCost from the tree: " + log.strip()[-300:])
-        return False
-    return True
+def translate(R, exe):
+    """constants from the compiler / from behaviour (translators/dv/gen_consts.py); never an alarm by itself"""
+    import importlib.util
+    spec = importlib.util.spec_from_file_location("dv_gen_consts", os.path.join(vlib.VERIF, "translators", "dv", "gen_consts.py"))
+    mod = importlib.util.module_from_spec(spec); spec.loader.exec_module(mod)
+    notes, incomplete, changed = mod.generate(exe, R.rundir)
+    for n in notes:
+        R.log(n)
+        if "kept" in n or "did not run" in n or "differs" in n or "no reference" in n:
+            R.notes.append(n)
+    if incomplete:
+        R.coverage["translation_incomplete"] = incomplete
 
 
 def run_harness(R, exe, n, seed, exhaustive, tag):
@@ -300,7 +303,7 @@ def run(R):
         "extraction: ExtrOcamlBasic only; N, positive, nat stay Coq datatypes",
     ]
     R.coverage["trusted_base"] = ["Coq kernel 8.16.1", "Coq extraction + OCaml 4.13.1", "runner/Dv/driver.ml", "harness/dv generator and fake ndn.Engine",
-                                  "translators/dv (go/types constant evaluation)", "go1.26 toolchain, testing/synctest"]
+                                  "translators/dv/gen_consts.py (compiler-evaluated CostInfinity through the hook, behavioural probe of the per-hop cost)", "go1.26 toolchain, testing/synctest"]
     import glob, shutil, time
     for f in glob.glob(os.path.join(R.work, "replay-*.json")):
         if time.time() - os.path.getmtime(f) > 600:
@@ -320,7 +323,13 @@ def run(R):
 
 def run2(R):
     import glob, shutil
-    translate(R)
+    exe = os.path.join(R.rundir, "h.test")
+    hok, hlog = vlib.go_test_build("dv", exe)
+    if hok:
+        translate(R, exe)
+    else:
+        R.notes.append("translator: harness does not build, constants kept from the committed GenConsts.v")
+        R.coverage["translation_incomplete"] = ["cost_infinity", "local_cost"]
     R.prove("Dv")
     if not R.quick:
         R.coqchk("Dv", ["Dv.Props_C18"] if os.path.exists(os.path.join(vlib.COQ, "Dv", "Props_C18.vo")) else ["Dv.Model"])
@@ -328,10 +337,8 @@ def run2(R):
     if not ok:
         R.proof_problems.append("extraction/OCaml build of the Dv model failed"); R.log(log[-1500:]); return R.finish()
     shutil.copy(runner, os.path.join(R.rundir, "runner")); runner = os.path.join(R.rundir, "runner")
-    exe = os.path.join(R.rundir, "h.test")
-    ok, log = vlib.go_test_build("dv", exe)
-    if not ok:
-        R.proof_problems.append("Go harness for dv no longer builds against the tree: " + log[-400:]); R.log(log[-1500:]); return R.finish()
+    if not hok:
+        R.proof_problems.append("Go harness for dv no longer builds against the tree: " + hlog[-400:]); R.log(hlog[-1500:]); return R.finish()
     R._shrinks = 0; R._exe = exe; R._runner = runner
     R.coverage["rule"] = ("one evaluation = one generated case: a connected graph on 2..6 real dv.Router objects with random names (random tie-break order), "
                           "bring-up, fair rounds (random permutations with repetitions), 2-3 fault phases (link/router loss and re-addition in random order, partial rounds) "
